@@ -180,9 +180,10 @@ def struct_part(chk):
       return classes[k]
     ann = {f: Any for f in ('f1', 'f2', 'f3')}
     ns = {'__annotations__': ann}
+    shared_md = {'doc': 'one metadata dict passed to every field'}      # (variant 3) the caller's dict must not be written to
     for f in ('f1', 'f2', 'f3'):
-      ns[f] = struct.field(pytree_node=(layout[f] == 'data'), default=1)
-    if variant == 0:
+      ns[f] = struct.field(pytree_node=(layout[f] == 'data'), default=1, **({'metadata': shared_md} if variant == 3 else {}))
+    if variant in (0, 3):
       cls = struct.dataclass(type('S', (), ns))
     elif variant == 1:
       cls = type('SN', (struct.PyTreeNode,), ns)
@@ -204,7 +205,7 @@ def struct_part(chk):
       continue
     seen.add(s)
     layout = beh['layout']
-    variant = idx % 3
+    variant = idx % 4
     cls = get_class(layout, variant)
     data = [f for f in ('f1', 'f2', 'f3') if layout[f] == 'data']
     key = 'C15:struct:' + ''.join(layout[f][0] for f in ('f1', 'f2', 'f3')) + f':v{variant}:' + '>'.join(e['op'] for e in beh['h'])
